@@ -62,6 +62,9 @@ def check(run):
     traces_verify.big_envelopes(run, n=12 if quick else 200, owner=owns)
     traces_verify.inplace_histories(run, n=300 if quick else 5000, owner=owns)
     traces_verify.fixture_traces(run, owner=owns)
+    # the same completeness through the delegation rule, with aliased arguments (a root checked against its own rules: one object twice)
+    from .. import traces_delegation
+    traces_delegation.aliased_traces(run, 200 if quick else 3000, owns)
 
 
 def replay(payload):
